@@ -244,6 +244,16 @@ func explore(cfg *Config, workers int, solverBin string, timeoutMs, maxPaths, ma
 		mu.Unlock()
 		cond.Signal()
 	}
+	nsamp := 0
+	cfg.NeedSample = func() bool {
+		mu.Lock()
+		defer mu.Unlock()
+		if nsamp >= 6 {
+			return false
+		}
+		nsamp++
+		return true
+	}
 	cfg.Witnessed = func(tag string) bool {
 		mu.Lock()
 		defer mu.Unlock()
@@ -321,7 +331,9 @@ func explore(cfg *Config, workers int, solverBin string, timeoutMs, maxPaths, ma
 					if nf >= maxFail {
 						stop = true
 					}
-				} else if len(sum.Samples) < 3 && res.Outcome == OutOK {
+				} else if res.Outcome == OutOK && res.Sampled && len(sum.Samples) < 6 {
+					sum.Samples = append(sum.Samples, map[string]interface{}{"decisions": res.Decisions, "instrs": res.Instrs, "obligations": res.Oblig, "notes": res.Events, "nondet": res.Nondet})
+				} else if res.Outcome == OutOK && len(sum.Samples) == 0 {
 					sum.Samples = append(sum.Samples, map[string]interface{}{"decisions": res.Decisions, "instrs": res.Instrs, "obligations": res.Oblig, "notes": res.Events})
 				}
 				work = append(work, res.NewWork...)
